@@ -975,11 +975,9 @@ class Context:
                 else:
                     # Fallback: return a simple empty function
                     return JSFunction("anonymous", params, bytes(), {})
-            except (MemoryLimitError, TimeLimitError):
+            except JSError:
                 raise
             except Exception as e:
-                from .errors import JSError
-
                 raise JSError(f"SyntaxError: {str(e)}")
 
         fn_constructor = JSCallableObject(function_constructor_fn)
@@ -1110,11 +1108,11 @@ class Context:
                 vm = VM(ctx.memory_limit, ctx.time_limit)
                 vm.globals = ctx._globals
                 return ctx._run_nested(vm, bytecode_module)
-            except (MemoryLimitError, TimeLimitError):
+            except JSError:
+                # Limit errors, syntax errors and exceptions thrown by the evaluated
+                # code reach the calling script (or the embedder) unchanged
                 raise
             except Exception as e:
-                from .errors import JSError
-
                 raise JSError(f"EvalError: {str(e)}")
 
         return eval_fn
